@@ -1313,10 +1313,9 @@ def execute(program, ctx, mode):
                     ctx.probe('identical-re-registration')
                 elif old is not None:
                     ctx.probe('overwrite')
-                g0 = regs[r]._generation
                 mutate(('reg', r, real_req(req), P[p], nm, v))
-                if old is v and 'C09' in props and regs[r]._generation != g0:
-                    ctx.violation('C09', 'no-op', 'C09|register|identical-re-registration-is-not-a-no-op', {'r': r, 'key': (norm(req), p, nm)})
+                # (an identical re-registration "is a no-op": judged by what the registry answers afterwards, not by its
+                # internal change counter -- bumping it needlessly would not be observable through the public API)
                 live[(r, norm(req), p, nm)] = v
                 last_mut[0] = 'register'
                 ctx.log(step, 'reg', r, req, p, nm, v)
